@@ -62,8 +62,8 @@ type Spec struct {
 	Modifies []ast.Expr
 	ModAll   bool // vs.ModifiesAll(): callee may change any heap location
 	Allocs   bool
-	Trusted  bool // contract on a function with no body in the repo (assumed)
-	Effect   bool // vs.Effect(): an externally visible effect (crash points are checked after it)
+	Trusted  bool     // contract on a function with no body in the repo (assumed)
+	Effect   bool     // vs.Effect(): an externally visible effect (crash points are checked after it)
 	Monitors []Clause // vs.Monitor(label, expr): must hold at entry and after every effectful call
 	Witness  []Clause // vs.Witness(label, expr): terms whose model values are reported for failed postconditions
 }
